@@ -58,13 +58,28 @@ def validator_facts(fb, val):
                 k = max(k, rv + (1 if op == ">" else 0))
             if rr == sizep and lv is not None and op in ("<=", "<"):
                 k = max(k, lv + (1 if op == "<" else 0))
+            # K + getter <= size, evaluated without narrowing (a 16-bit sum wraps)
+            for x, y, o in ((ln, rn, op), (rn, ln, facts._flip_op(op))):
+                if o in ("<=", "<") and strip_all_casts(y).get("decl") == sizep:
+                    from rules.decoder_rules import _linear
+                    from rules.encoder_rules import narrowings
+
+                    def syms(z):
+                        if z.get("k") == "call" and "Header::get" in (callee_name(z) or ""):
+                            return callee_name(z)
+                        return None
+                    form = _linear(val, x, syms)
+                    if form and len([k2 for k2 in form if k2 != 1]) == 1 and not narrowings(val, x, limit_bits=32):
+                        g = [k2 for k2 in form if k2 != 1][0]
+                        if form[g] == 1 and form.get(1, 0) >= 0:
+                            b.add((g, form.get(1, 0) + (1 if o == "<" else 0)))
             # getter <= size - sizeof(Header)
             for x, y, o in ((ln, rn, op), (rn, ln, facts._flip_op(op))):
                 if o in ("<=", "<"):
                     yy = strip_all_casts(y)
                     if yy.get("k") == "bin" and yy.get("op") == "-" and strip_all_casts(yy["l"]).get("decl") == sizep and const_value(yy["r"]) is not None:
                         for c in walk(x):
-                            if c.get("k") == "call" and "::Header::get" in (callee_name(c) or ""):
+                            if c.get("k") == "call" and "Header::get" in (callee_name(c) or ""):
                                 b.add((callee_name(c), const_value(yy["r"])))
         K = k if K is None else min(K, k)
         bounded = b if bounded is None else (bounded & b)
@@ -232,10 +247,7 @@ def run(ctx):
             ok = facts.fact_implies_ge(mfv.at(c), ivp.params[1]["decl"], mh) is not None
             res.check(ok, "C03-R4", "isValidPacket:read:%s" % callee_name(c).split("::")[-1], c.get("loc"), "header read guarded by size >= 16",
                       "isValidPacket reads the message header before checking size >= sizeof(MessageHeader)")
-    okl = any(b[0] == NS + "MessageHeader::getPayloadLength" and b[1] == mh for b in
-              {(callee_name(c), const_value(strip_all_casts(y)["r"])) for r in ivp.returns() for a in conjuncts(r["e"], True) if a[0] == "cmp"
-               for x, y, o in ((a[4], a[5], a[2]), (a[5], a[4], facts._flip_op(a[2]))) if o in ("<=", "<") and strip_all_casts(y).get("k") == "bin" and
-               strip_all_casts(y).get("op") == "-" for c in walk(x) if c.get("k") == "call"})
+    okl = any(b[0] == NS + "MessageHeader::getPayloadLength" and b[1] == mh for b in bounded)
     res.check(okl, "C03-R4", "isValidPacket:length-bound", ivp.loc, "payloadLength <= size - 16", "isValidPacket does not bound the payload length by size - sizeof(MessageHeader)")
     # construction sites of Packet(msgType, data, size)
     from rules import decoder_rules as D
